@@ -194,7 +194,14 @@ def judge(ctx, p, rng):
     for flavour in (("rec", "rec"), ("none", "rec"), ("rec", "none"),
                     ("none", "none")):
         spec = [(n_, "rec") for n_ in names if n_ != dup]
-        pair = [(dup, flavour[0]), (dup.upper(), flavour[1])]
+        # the two spellings: normalised one first, normalised one last,
+        # or neither of them normalised
+        a, b = rng.choice([(dup, dup.upper()), (dup.upper(), dup),
+                           (dup.upper(), dup.capitalize()),
+                           (dup.capitalize(), dup)])
+        if a == b:
+            a, b = dup.upper(), dup
+        pair = [(a, flavour[0]), (b, flavour[1])]
         if rng.random() < 0.5:
             spec = pair + spec
         else:
